@@ -10,9 +10,6 @@ import Gts.Lemmas.RepairRoundTrip
 namespace Gts
 open Loc
 
-/-- `sort` returns a rearrangement of its argument -/
-def PermSort (sort : List Loc → List Loc) : Prop := ∀ xs, (sort xs).Perm xs
-
 theorem CorrectSort.permSort {sort : List Loc → List Loc} (h : CorrectSort sort) : PermSort sort :=
   fun xs => (h xs).perm
 
@@ -139,11 +136,6 @@ theorem pairwise_adj {α} {r : α → α → Prop} : ∀ {l : List α}, l.Pairwi
   | a :: b :: l, h => by
     have h' := List.pairwise_cons.mp h
     exact ⟨h'.1 b (by simp), pairwise_adj h'.2⟩
-
-/-- a sort that leaves alone every list in which no later element is less than an earlier one
-(true of insertion sort and of Go's pdqsort, false of "insertion sort of the reversed list") -/
-def KeepsSorted (sort : List Loc → List Loc) : Prop :=
-  ∀ p : List Loc, (p.Pairwise fun a b => less b a = false) → sort p = p
 
 theorem sortLocs_keepsSorted : KeepsSorted sortLocs := sortLocs_of_sorted
 
